@@ -33,6 +33,12 @@ type kase struct {
 	given   map[uint32]bool // valid element put inside the window
 	tainted map[uint32]bool // an invalid element with this index was put
 	hasAdv  bool
+	// schedule classes of the three known defects (Props/C20.lean: queue_offers_only_next,
+	// queue_no_external_writer_never_stuck, queue_len_drift_witness); a failure outside its class is a new one
+	raced       bool // an external addition fell between Run's height read and its lock section (not Calm)
+	advAsleep   bool // the last external addition came while Run was blocked on checkBlocks or between its height read and lock section ...
+	sigAfterAdv bool // ... and a Put signalled since then
+	staleInsert bool // a producer with a stale height got an index past its window check that the chain had passed
 	ahead   bool
 	nextTag int
 	trace   []string
@@ -52,7 +58,7 @@ func (c *kase) onCall(ac *addCall) string {
 	if ac.idx > ac.heightB+1 {
 		c.ahead = true
 		key := "additem-ahead"
-		if c.hasAdv {
+		if c.raced {
 			key = "additem-ahead-ext"
 		}
 		c.o.Fail(key, c.k, "Run called AddItem(index %d) at chain height %d (cap %d): the element is dropped unapplied; schedule: %s",
@@ -69,6 +75,11 @@ func (c *kase) doPut(idx uint32, ok bool, hr uint32) {
 	c.nextTag++
 	c.r.put(e, hr)
 	if !c.r.disc && idx > hr && idx <= hr+uint32(c.cap) {
+		c.sigAfterAdv = true // queue.go:196-201: every Put that gets this far signals
+		if idx <= c.r.height() {
+			c.staleInsert = true
+			c.o.Count("put:stale-index-past-the-check")
+		}
 		if ok {
 			c.given[idx] = true
 		} else {
@@ -102,7 +113,14 @@ func (c *kase) doRun() {
 func (c *kase) doAdv() {
 	c.hasAdv = true
 	if c.r.st == pHaveH {
+		c.raced = true
 		c.o.Count("adv:between-read-and-lock")
+	}
+	// Run will not look at the chain height again before it blocks: it is blocked already, or it has read the
+	// height for its next lock section
+	c.advAsleep, c.sigAfterAdv = c.r.st == pWait || c.r.st == pHaveH, false
+	if c.advAsleep {
+		c.o.Count("adv:while-run-blocked")
 	}
 	c.r.advance()
 	c.line("adv", "")
@@ -144,7 +162,7 @@ func (c *kase) finalChecks() {
 	}
 	if m > h && !c.ahead {
 		key := "stuck"
-		if c.hasAdv {
+		if c.hasAdv && c.advAsleep && !c.sigAfterAdv {
 			key = "stuck-ext"
 		}
 		c.o.Fail(key, c.k, "Run is blocked at height %d although valid in-window elements up to %d were put (cap %d); schedule: %s",
@@ -158,7 +176,11 @@ func (c *kase) finalChecks() {
 			_, left := r.q.LastQueued()
 			if left != c.cap-occ {
 				c.o.Count("final:len-drift")
-				c.o.Fail("len-drift", c.k, "Run blocked, %d of %d slots occupied, LastQueued reports %d left; schedule: %s",
+				key := "len-drift-fresh"
+				if c.staleInsert || c.hasAdv {
+					key = "len-drift"
+				}
+				c.o.Fail(key, c.k, "Run blocked, %d of %d slots occupied, LastQueued reports %d left; schedule: %s",
 					occ, c.cap, left, strings.Join(c.trace, "; "))
 			}
 			if occ > 0 {
